@@ -5,7 +5,9 @@ Correspondence between rex.ppo.Policy / PPOResult.policy and
       float32 transcription of the model's normalize1 / unsquash1 (synthetic PPOResults, all depths / widths / activations),
   (b) the Gallina model Policy.v evaluated over Q inside Coq (relu, small dyadic weights: exact),
   (c) the actions ppo.train itself computed and handed to the environment in its last evaluation roll-out (real training runs
-      on a small graph-free BaseEnv).
+      on a small graph-free BaseEnv, single or jax.vmap'ed over seeds),
+  (d) for training results with leading batch axes (jax.vmap(train) over seeds / hyper-parameters): the policy of member i exported
+      by res.policy[i] / res[i].policy / applied under jax.vmap against member i's own flax actor, statistics and bounds.
 """
 import json, os
 from fractions import Fraction
@@ -151,6 +153,7 @@ class Impl:
         from rex import base
         from flax.training.train_state import TrainState
         self.__dict__.update(locals())
+        self.tx = optax.sgd(0.1)
 
     def key_order(self, s):
         import random
@@ -158,10 +161,14 @@ class Impl:
         if s.get("shuffle"): random.Random(s["seed"] ^ 0x5a5a).shuffle(ks)
         return ks
 
-    def make(self, s, nb, check_init=False):
+    def f32(self, v):
         jnp, onp = self.jnp, self.onp
-        f32 = lambda v: jnp.asarray(onp.array([[float(x) for x in row] for row in v] if v and isinstance(v[0], list) else [float(x) for x in v],
-                                              dtype=onp.float32))
+        return jnp.asarray(onp.array([[float(x) for x in row] for row in v] if v and isinstance(v[0], list) else [float(x) for x in v],
+                                     dtype=onp.float32))
+
+    def arrays(self, s, nb):
+        """every array of a case as a pytree: the parameter tree {'actor', 'critic'} plus low/high/mean/var"""
+        jnp, onp, f32 = self.jnp, self.onp, self.f32
         h, w = s["hidden"], s["width"]
         actor = {}
         for k in self.key_order(s):     # the dict order of the parameters is part of the case
@@ -175,7 +182,10 @@ class Impl:
         critic = {f"Dense_{i}": {"kernel": jnp.asarray(onp.array([[r.gauss(0, 0.3) for _ in range(dims[i + 1])] for _ in range(dims[i])],
                                                                  dtype=onp.float32).reshape(dims[i], dims[i + 1])),
                                  "bias": jnp.zeros((dims[i + 1],), dtype=jnp.float32)} for i in range(h + 1)}
-        params = {"params": {"actor": actor, "critic": critic}}
+        return dict(actor=actor, critic=critic, low=f32(nb["low"]), high=f32(nb["high"]), mean=f32(nb["mean"]), var=f32(nb["var"]))
+
+    def network(self, s):
+        h, w = s["hidden"], s["width"]
         cfg = self.ppo.Config(NUM_HIDDEN_LAYERS=h, NUM_HIDDEN_UNITS=w, HIDDEN_ACTIVATION=s["actn"], SQUASH=s["squash"],
                               NORMALIZE_ENV=s["norm"], NUM_ENVS=s["nenv"])
         net = self.ActorCritic(
@@ -183,20 +193,33 @@ class Impl:
                              kernel_init_type=cfg.KERNEL_INIT_TYPE, state_independent_std=True),
             critic=self.Critic(num_hidden_units=w, num_hidden_layers=h, hidden_activation=s["actn"] if s["actn"] in ACTS else "tanh",
                                kernel_init_type=cfg.KERNEL_INIT_TYPE))
+        return cfg, net
+
+    def assemble(self, s, A, cfg, net, clip):
+        """the PPOResult ppo.train returns for the arrays A of one training run (jax-traceable: used under jax.vmap for stacked results)"""
+        jnp = self.jnp
+        params = {"params": {"actor": A["actor"], "critic": A["critic"]}}
+        ts = self.TrainState.create(apply_fn=net.apply, params=params, tx=self.tx)
+        low = jnp.tile(A["low"][None], (s["nenv"], 1)); high = jnp.tile(A["high"][None], (s["nenv"], 1))
+        aux = {"act_scaling": self.SquashState(low=low, high=high, squash=s["squash"])}
+        if s["norm"]:
+            aux["norm_obs"] = self.NormalizeVec(mean=A["mean"], var=A["var"], count=1234.0, return_val=None, clip=clip)
+            aux["norm_reward"] = self.NormalizeVec(mean=0.25, var=3.0, count=1234.0, return_val=jnp.zeros((s["nenv"],)), clip=10.0)
+        gs = self.base.GraphState(aux=aux)
+        return self.ppo.PPOResult(config=cfg, runner_state=self.ppo.RunnerState(train_state=ts, env_state=gs, last_obs=None, rng=None),
+                                  metrics={})
+
+    def make(self, s, nb, check_init=False):
+        jnp = self.jnp
+        A = self.arrays(s, nb)
+        params = {"params": {"actor": A["actor"], "critic": A["critic"]}}
+        cfg, net = self.network(s)
         if check_init and s["actn"] in ACTS:
             ref = net.init(self.jax.random.PRNGKey(0), jnp.zeros((s["obs_dim"],)))
             sh = lambda t: sorted((self.jax.tree_util.keystr(p), tuple(x.shape)) for p, x in self.jax.tree_util.tree_leaves_with_path(t))
             assert sh(ref) == sh(params), ("synthetic parameter tree differs from ActorCritic.init", sh(ref), sh(params))
-        ts = self.TrainState.create(apply_fn=net.apply, params=params, tx=self.optax.sgd(0.1))
-        low = jnp.tile(f32(nb["low"])[None], (s["nenv"], 1)); high = jnp.tile(f32(nb["high"])[None], (s["nenv"], 1))
-        aux = {"act_scaling": self.SquashState(low=low, high=high, squash=s["squash"])}
-        if s["norm"]:
-            aux["norm_obs"] = self.NormalizeVec(mean=f32(nb["mean"]), var=f32(nb["var"]), count=1234.0, return_val=None, clip=float(nb["clip"]))
-            aux["norm_reward"] = self.NormalizeVec(mean=0.25, var=3.0, count=1234.0, return_val=jnp.zeros((s["nenv"],)), clip=10.0)
-        gs = self.base.GraphState(aux=aux)
-        res = self.ppo.PPOResult(config=cfg, runner_state=self.ppo.RunnerState(train_state=ts, env_state=gs, last_obs=None, rng=None),
-                                 metrics={})
-        return res, net, params, f32
+        res = self.assemble(s, A, cfg, net, float(nb["clip"]))
+        return res, net, params, self.f32
 
     # independent float32 transcription of the model's normalize1 (clip, subtract mean) and unsquash1
     def ref_norm(self, s, nb, obs, f32):
@@ -319,7 +342,9 @@ def train_case(chk, im, tspec):
     n = 0
     for k in range(max(nv, 1)):
         pick = (lambda x: x[k]) if nv else (lambda x: x)
-        pol = jax.tree_util.tree_map(pick, pol_all)
+        try: pol = pol_all[k] if nv else pol_all       # res.policy[k]: the documented export of the k-th seed's policy
+        except Exception as ex:  # noqa
+            chk.violation(sig(s, "vmapped-train-export-raises"), f"res.policy[{k}] raised on a result of jax.vmap(train): {type(ex).__name__}: {str(ex)[:200]}", case); return
         m = jax.tree_util.tree_map(pick, res.metrics)
         act = onp.asarray(m["act"][-1]); obs = onp.asarray(m["obs"][-1]); done = onp.asarray(m["done"][-1]); app = onp.asarray(m["applied"][-1])
         aux = res.runner_state.env_state.aux
@@ -335,14 +360,14 @@ def train_case(chk, im, tspec):
                 ref = (0.5 * (onp.tanh(raw) + 1.0) * (hi[0] - lo[0]) + lo[0]) if tspec["squash"] else onp.minimum(onp.maximum(raw, lo[0]), hi[0])
                 d = close(a, ref.astype(onp.float32), tol=2e-5)
                 if d:
-                    chk.violation(sig(s, "train-action-differs"), f"exported policy differs from the trainer's evaluation action (pi.mean through the "
+                    chk.violation(sig(s, ("vmapped-" if nv else "") + "train-action-differs"), f"exported policy{f' res.policy[{k}] of a jax.vmap(train) result' if nv else ''} differs from the trainer's evaluation action (pi.mean through the "
                                   f"action scaling) on an observation of the last evaluation roll-out: {d}",
-                                  dict(case, obs=obs[t, e].tolist(), policy=a.tolist(), trainer=ref.tolist())); return
+                                  dict(case, member=k, obs=obs[t, e].tolist(), policy=a.tolist(), trainer=ref.tolist(), low=lo[0].tolist(), high=hi[0].tolist())); return
                 # (ii) what the environment really received at that step (not available on the step where the episode ended)
                 if not done[t + 1, e]:
                     d = close(a, app[t + 1, e], tol=2e-5)
                     if d:
-                        chk.violation(sig(s, "env-action-differs"), f"exported policy differs from the action the environment received from the "
+                        chk.violation(sig(s, ("vmapped-" if nv else "") + "env-action-differs"), f"exported policy{f' res.policy[{k}] of a jax.vmap(train) result' if nv else ''} differs from the action the environment received from the "
                                       f"trainer for the same observation: {d}", dict(case, obs=obs[t, e].tolist(), policy=a.tolist(),
                                                                                      env_received=app[t + 1, e].tolist())); return
                 n += 1
@@ -406,6 +431,139 @@ def wrapper_case(chk, im, s, nb):
                       dict(case, envs=idx, policy=got.tolist(), env_received=applied.tolist()))
 
 
+# ---------------------------------------------------------------- stacked (batched) training results
+EXPORTS = ["policy[i]", "policy[i]", "result[i].policy", "result[i].policy", "vmap(get_action)"]
+LEADS = [[1], [2], [3], [3], [4], [2, 2], [2, 3], [1, 2], [3, 1]]
+# (hidden, width, obs_dim, act_dim): a fixed menu, so that the eagerly dispatched jax primitives are compiled once per run and not once per
+# case (the architecture itself is the subject of the float / exact streams; this family varies the layout of the result around it)
+ARCHS = [(0, 1, 3, 2), (1, 4, 2, 3), (2, 8, 4, 3), (2, 16, 3, 2), (3, 5, 5, 4), (1, 32, 2, 1), (4, 3, 1, 4), (2, 8, 4, 1)]
+
+
+def gen_stacked(r):
+    """a training result with leading batch axes: what jax.vmap(train, in_axes=(None, 0))(config, rngs) returns (one axis: seeds;
+    two axes: e.g. seeds x hyper-parameters). Every leaf of the result carries the leading axes, the action bounds are
+    [*lead, NUM_ENVS, ACTION_DIM]; one member's policy is exported as res.policy[i] (the documented way), res[i].policy, or the
+    stacked policy is used under jax.vmap. The members have different parameters / statistics, and the same or different bounds.
+    leaves: jax arrays, or numpy arrays (jax.device_get / a result restored from disk). construct: the stacked result is obtained by
+    jax.vmap of the single-result constructor, or by stacking every leaf of the members' results (checked to be the same thing)."""
+    s = gen_spec(r, "float")
+    h, w, od, ad = r.choice(ARCHS)
+    s.update(kind="stacked", batch=0, shuffle=False, hidden=h, width=w, obs_dim=od, act_dim=ad, lead=list(r.choice(LEADS)),
+             export=r.choice(EXPORTS), bounds=r.choice(["shared", "shared", "per-member"]), leaves=r.choice(["jax", "numpy", "numpy"]),
+             construct=r.choice(["vmap"] + ["stack"] * 7))
+    if r.random() < 0.35:   # coincidences between the sizes of the leading axes, the env axis and the action axis
+        s["nenv"] = r.choice([s["lead"][0], s["lead"][-1], ad])
+    if s["export"] == "vmap(get_action)" and not s["norm"] and s["obs_class"] in ("huge", "mixed"):
+        s["obs_class"] = "medium"   # see the tolerance note in stacked_case
+    return s
+
+
+def stacked_members(s):
+    import itertools
+    idxs = list(itertools.product(*[range(n) for n in s["lead"]]))
+    nbs = []
+    for m, _ in enumerate(idxs):
+        nb = build_numbers(dict(s, seed=s["seed"] + 1000003 * m))
+        if s["bounds"] == "shared" and m: nb["low"], nb["high"] = nbs[0]["low"], nbs[0]["high"]
+        nbs.append(nb)
+    return idxs, nbs
+
+
+def sig_st(s, what): return f"{what}:export={s['export']},squash={int(s['squash'])}"
+
+
+def stacked_case(chk, im, s):
+    jax, jnp, onp = im.jax, im.jnp, im.onp
+    idxs, nbs = stacked_members(s)
+    f32 = im.f32
+    cfg, net = im.network(s)
+    As = [im.arrays(s, nb) for nb in nbs]
+    lead = tuple(s["lead"])
+    tu = jax.tree_util
+    # every leaf of the members' results (python scalars of config / counters included) stacked along the leading axes
+    members = [im.assemble(s, a, cfg, net, 10.0) for a in As]
+    leaves = [tu.tree_leaves(m) for m in members]
+    def build_stack():
+        canon = lambda x: onp.asarray(x).astype(jax.dtypes.canonicalize_dtype(onp.asarray(x).dtype))    # python scalars as jax sees them (float32 / int32)
+        st = [onp.stack([canon(x) for x in ls]) for ls in zip(*leaves)]
+        st = [x.reshape(lead + x.shape[1:]) for x in st]
+        return tu.tree_unflatten(tu.tree_structure(members[0]), st if s.get("leaves") == "numpy" else [jnp.asarray(x) for x in st])
+    def build_vmap():
+        A = tu.tree_map(lambda *xs: onp.stack([onp.asarray(x) for x in xs]).reshape(lead + xs[0].shape), *As)
+        build = lambda a: im.assemble(s, a, cfg, net, 10.0)
+        for _ in lead: build = jax.vmap(build)
+        out = build(A)
+        return jax.device_get(out) if s.get("leaves") == "numpy" else out
+    case = dict(spec=s, members=[list(i) for i in idxs], low=[[float(x) for x in nb["low"]] for nb in nbs],
+                high=[[float(x) for x in nb["high"]] for nb in nbs])
+    hist, f = feats(s, nbs[0])
+    f.append("stacked-result"); f.append(f"export:{s['export']}"); f.append(f"leaves:{s.get('leaves')}")
+    if s.get("construct") == "vmap": f.append("constructed-by-jax.vmap")
+    if len(lead) == 2: f.append("two-leading-axes")
+    if 1 in lead: f.append("leading-axis-of-size-1")
+    if s["act_dim"] in lead: f.append("leading-axis-size-equals-action-dim")
+    if s["nenv"] in lead: f.append("leading-axis-size-equals-num-envs")
+    if s["act_dim"] >= 2 and len({(float(l), float(h)) for l, h in zip(nbs[0]["low"], nbs[0]["high"])}) > 1: f.append("bounds-differ-between-action-dims")
+    if s["bounds"] == "per-member": f.append("bounds-differ-between-members")
+    for h in hist: chk.feat(h)
+    chk.case(json.dumps(s, sort_keys=True), f, dict(spec=s))
+    # reference per member: the flax network on that member's own parameters, statistics and bounds (no stacking involved)
+    obs = [f32(nb["obs"]) for nb in nbs]; keys = [jax.random.PRNGKey(nb["key"]) for nb in nbs]
+    refs = []
+    for a, nb, o, k in zip(As, nbs, obs, keys):
+        pi, _ = net.apply({"params": {"actor": a["actor"], "critic": a["critic"]}}, im.ref_norm(s, nb, o, f32))
+        refs.append((onp.asarray(im.ref_unsquash(s, nb, pi.mean(), f32)), onp.asarray(im.ref_unsquash(s, nb, pi.sample(seed=k), f32))))
+    res = build_stack()
+    shp = tuple(res.runner_state.env_state.aux["act_scaling"].low.shape)
+    assert shp == lead + (s["nenv"], s["act_dim"]), shp     # the layout ppo.train produces under vmap
+    if s.get("construct") == "vmap":     # self-check of the harness: stacking the leaves is what jax.vmap of the constructor returns
+        rv = build_vmap()
+        lv, ls = tu.tree_leaves(rv), tu.tree_leaves(res)
+        same = tu.tree_structure(jax.device_get(rv)) == tu.tree_structure(jax.device_get(res)) and \
+            all(onp.shape(x) == onp.shape(y) and onp.array_equal(onp.asarray(x), onp.asarray(y)) for x, y in zip(lv, ls))
+        if not same: chk.broke("harness:stacked-result-differs-from-jax.vmap", json.dumps(s)); return
+        res = rv
+    try:
+        if s["export"] == "vmap(get_action)":
+            pol = res.policy
+            det = lambda p, o: p.get_action(o)
+            smp = lambda p, o, k: p.get_action(o, rng=k)
+            for _ in lead: det, smp = jax.vmap(det), jax.vmap(smp)
+            O = jnp.stack(obs).reshape(lead + obs[0].shape); K = jnp.stack(keys).reshape(lead + keys[0].shape)
+            D, S = onp.asarray(det(pol, O)), onp.asarray(smp(pol, O, K))
+            got = [(D[i], S[i]) for i in idxs]
+        else:
+            got = []
+            for i, o, k in zip(idxs, obs, keys):
+                if s["export"] == "policy[i]":
+                    pol = res.policy
+                    for j in i: pol = pol[j]
+                else:
+                    rr = res
+                    for j in i: rr = rr[j]
+                    pol = rr.policy
+                got.append((onp.asarray(pol.get_action(o)), onp.asarray(pol.get_action(o, rng=k))))
+    except Exception as ex:  # noqa
+        chk.violation(sig_st(s, "stacked-result-export-raises"), f"exporting / applying the policy of a training result with leading batch axes "
+                      f"{list(lead)} via {s['export']} raised: {type(ex).__name__}: {' '.join(str(ex).split())[:200]}", case)
+        return
+    # tolerance: as in the unstacked float stream, 1e-5*(1+|x|). Under jax.vmap the dense layers become batched matmuls whose summation
+    # order may differ from the unbatched one, so that family avoids un-normalised observations of magnitude 1e4..1e6 (cancellation
+    # would be amplified beyond a relative tolerance on the result); the indexed exports run the very same unbatched computation.
+    for i, nb, (gd, gs), (rd, rs) in zip(idxs, nbs, got, refs):
+        chk.traces_impl += 1
+        for which, g, rf in (("deterministic", gd, rd), ("sampled", gs, rs)):
+            d = close(g, rf)
+            if d:
+                chk.violation(sig_st(s, "stacked-result-action-differs" if which == "deterministic" else "stacked-result-sample-differs"),
+                              f"training result with leading batch axes {list(lead)} (as returned by jax.vmap(train)): the {which} action of the "
+                              f"policy exported for member {list(i)} via {s['export']} differs from that member's actor under that member's "
+                              f"observation normalisation and action bounds low={[float(x) for x in nb['low']]} high={[float(x) for x in nb['high']]}: {d}",
+                              dict(case, member=list(i), obs=[float(x) for x in nb["obs"]], policy=g.tolist(), actor=rf.tolist()))
+                return
+    chk.feat("stacked-members-compared", len(idxs))
+
+
 # ---------------------------------------------------------------- main
 def judge(chk, s, nb, out, model=None, exact_ok=False):
     import numpy as onp
@@ -459,10 +617,12 @@ def run(chk, replay=None):
     quick = chk.tier == "quick"
     r = chk.rnd
     only_wrapper = False
+    sspecs = []
     if replay:
         rp = json.load(open(replay)); c = rp["case"]
         only_wrapper = c.get("spec", {}).get("kind") == "wrapper"
         if c.get("kind") == "train": specs, tspecs = [], [c["spec"]]
+        elif c.get("spec", {}).get("kind") == "stacked": specs, tspecs, sspecs = [], [], [c["spec"]]
         else: specs, tspecs = [dict(c["spec"], kind="float") if only_wrapper else c["spec"]], []
     else:
         specs = [gen_spec(r, "float") for _ in range(140 if quick else 1400)] + [gen_spec(r, "exact") for _ in range(80 if quick else 600)] + \
@@ -473,6 +633,9 @@ def run(chk, replay=None):
                                squash=(i % 2 == 0) if quick else r.random() < 0.5, norm=(i % 2 == 0) if quick else r.random() < 0.6,
                                nenv=r.choice([2, 4]), obs_dim=r.randint(2, 4), act_dim=r.randint(1, 3), T=r.randint(4, 7),
                                lr=r.choice([5e-4, 1e-2]), anneal=r.random() < 0.3, vmap=(0 if quick or i % 3 else 3)))
+        # one of the real runs of the quick tier trains two seeds at once (jax.vmap over the rng) on >= 2 action dimensions
+        if quick: tspecs[-1].update(vmap=2, act_dim=max(2, tspecs[-1]["act_dim"]))
+        sspecs = [gen_stacked(r) for _ in range(36 if quick else 200)]
     im = Impl()
     import numpy as onp
     # the float32 facts the exact cases rely on
@@ -503,12 +666,18 @@ def run(chk, replay=None):
             wn += 1
             chk.feat("wrapper-stack-case")
             wrapper_case(chk, im, s, nb)
+    for s in sspecs: stacked_case(chk, im, s)
     for ts in tspecs: train_case(chk, im, ts)
     chk.extra["rule"] = ("synthetic PPOResults: real ppo.Config / RunnerState / TrainState / GraphState.aux with actor parameters drawn at random "
                          "(depth 0-4 and 11, width 1-64, obs dim 1-8, action dim 1-4, tanh/relu/gelu/softplus, squash or clip, normalisation on "
                          "or off incl. zero variance, 1-4 parallel envs, parameter dict in natural or shuffled order, single or batched observation "
                          "from N(0,1) up to +-1e6); exact stream: relu, weights in {0,+-1/2,+-1}, dyadic observations up to 2^20, evaluated by the "
-                         "Gallina model over Q; unknown-activation stream; real ppo.train runs on a 2-state graph-free BaseEnv. Every case counts "
+                         "Gallina model over Q; unknown-activation stream; real ppo.train runs on a 2-state graph-free BaseEnv (one of them jax.vmap'ed over "
+                         "seeds, exported with res.policy[k]); stacked stream: training results with one or two leading batch axes of size 1-4 as "
+                         "returned by jax.vmap(train) (every leaf stacked, bounds [*lead, NUM_ENVS, ACTION_DIM], members with different parameters / "
+                         "statistics and shared or per-member bounds, jax or numpy leaves, sizes of the leading / env / action axes coinciding or "
+                         "not), one member exported by res.policy[i], res[i].policy or the stacked policy applied under jax.vmap, each member "
+                         "compared with its own flax actor. Every case counts "
                          "as non-trivial (each has a network and a non-identity scaling); distinct by full specification incl. seed")
     chk.trusted += ["flax nn.Dense / activation functions, distrax MultivariateNormalDiag (mean, sample), jax.random: shared by the exported policy "
                     "and the actor, entering the model as Section variables sigma, fexp, normal",
